@@ -188,7 +188,8 @@ def r3_no_truncation(ctx):
     ok_b = ok_c = False
     for g in live_raises(gc):
         tests = [(t, pol) for t, pol in g.tests() if pol]
-        ins = [t for t, _ in tests if isinstance(t, ast.Compare) and len(t.ops) == 1 and isinstance(t.ops[0], ast.In)]
+        ins = [t for t, _ in tests if isinstance(t, ast.Compare) and len(t.ops) == 1 and isinstance(t.ops[0], ast.In)
+               and U(t.comparators[0]) == gc.args.args[0].arg]  # membership in the whole charge string, not in a fragment of it
         if len({U(t.left) for t in ins}) >= 2:
             ok_b = True
         for t, _ in tests:
@@ -534,6 +535,8 @@ MUTANTS += [
     Mutant("prefix-strip-one-char", [(PARSING, "            formula = formula[len(ign) :]", "            formula = formula[1:]")], "C01-R6", "prefix"),
     Mutant("leading-count-single-digit", [(PARSING, 'm = re.findall(r"^\\d+", s)', 'm = re.findall(r"^\\d", s)')], "C01-R6", "leading-digits"),
 ]
+
+MUTANTS.append(Mutant("both-signs-guard-on-fragment", [(PARSING, "            if anti in chgstr:\n                raise ValueError(\"Invalid charge description (+ & - present)\")\n\n            before, after = chgstr.split(token)\n", "            before, after = chgstr.split(token)\n            if anti in before:\n                raise ValueError(\"Invalid charge description (+ & - present)\")\n")], "C01-R3", "both-signs"))
 
 TWINS = [
     Twin("rename-local-m", [(PARSING, "            m = 1\n        else:\n            m, stoich = _get_leading_integer(stoich)\n        comp = _parse_stoich(stoich)\n        for k, v in comp.items():\n            if k not in tot_comp:\n                tot_comp[k] = m * v\n            else:\n                tot_comp[k] += m * v",
